@@ -386,7 +386,7 @@ def derivatives(
     if regime == DeformationRegime.min_viscosity:
         # Do absolutely nothing, all derivatives are zero.
         return (
-            np.repeat(np.eye(3), n_grains).reshape(3, 3, n_grains).transpose(),
+            np.zeros((n_grains, 3, 3)),
             np.zeros(n_grains),
         )
     elif regime == DeformationRegime.matrix_diffusion:
@@ -467,7 +467,7 @@ def derivatives(
     elif regime == DeformationRegime.max_viscosity:
         # Do absolutely nothing, all derivatives are zero.
         return (
-            np.repeat(np.eye(3), n_grains).reshape(3, 3, n_grains).transpose(),
+            np.zeros((n_grains, 3, 3)),
             np.zeros(n_grains),
         )
     else:
